@@ -112,7 +112,12 @@ class Declared:
 
     @staticmethod
     def check_of(e):
-        """(column, k) of a check `col <> k`"""
+        """(column, k) of a check `col <> k`, or of an AND / OR of copies of one such check (same meaning, written
+        with groups: (c <> k OR c <> k) AND (c <> k OR c <> k))"""
+        if e[0] == "bin" and e[1] in ("and", "or"):
+            a, b2 = Declared.check_of(e[2]), Declared.check_of(e[3])
+            assert a == b2, e
+            return a
         assert e[0] == "bin" and e[1] == "ne" and e[2][0] == "col" and e[3][0] == "val", e
         return H(e[2][1]), int(e[3][1].split(":")[2])
 
@@ -495,7 +500,11 @@ class SGen:
             elems.append("(fk (fk %s))" % " ".join(parts))
         for _ in range(r.choice([0, 0, 0, 1, 2])):
             if ints:
-                elems.append("(check (bin ne (col %s) (val i:i32:%d)))" % (hexs(r.choice(ints)), r.randrange(1000, 100000)))
+                one = "(bin ne (col %s) (val i:i32:%d))" % (hexs(r.choice(ints)), r.randrange(1000, 100000))
+                if r.random() < 0.3:
+                    # the same check written with groups: the text starts with ( and ends with ) without being one group
+                    one = "(bin and (bin or %s %s) (bin or %s %s))" % (one, one, one, one)
+                elems.append("(check %s)" % one)
         body = cols + elems
         if r.random() < 0.3:
             r.shuffle(body)
